@@ -170,3 +170,11 @@ Proof.
     eapply GS_S; [apply G_close; reflexivity|]. apply GS_0.
   - split; reflexivity.
 Qed.
+
+(* ---------- tie to the source: the part of the model this property rests on is what /verif/translate derives from
+   /repo's Go source on this run (Generated/*.v are rewritten before every build; see DESIGN.md section 9) ---------- *)
+From HC.Generated Require Import SrcTables.
+From HC.Proofs Require Import TieTables.
+Theorem C20_source_default_timeout : src_default_swr_timeout = default_swr_timeout.
+Proof. exact tie_default_swr_timeout. Qed.
+Print Assumptions C20_source_default_timeout.
